@@ -1,6 +1,6 @@
 (* C19 — Text importers are memory-safe on any input and round-trip exported data.
-   Only statements + `exact`; proofs in C19Proofs.v / C19RoundTrip.v / C19RoundTrip2.v / C19SvmRoundTrip.v / C19Batches.v,
-   executable model in C19Model.v.
+   Only statements + `exact`; proofs in C19Proofs.v / C19RoundTrip.v / C19RoundTrip2.v / C19SvmRoundTrip.v / C19Batches.v /
+   C19BigBatchProofs.v / C19LinesProofs.v / C19ScalarRoundTripProofs.v, executable model in C19Model.v, C19BigBatch.v, C19Lines.v.
 
    PROVED (about the model, for every byte string, separator, comment character, label position, batch size):
    every importer overload returns either a well-formed dataset (all records of the reported dimension,
@@ -29,7 +29,49 @@
    ARE detail::optimalBatchSizes(n, maximumBatchSize) (balanced, none empty or too large, ceil(n/m) batches); the
    LibSVM importers return full batches of batchSize followed by the remainder (LabeledData(n, blueprint, batchSize)),
    which is a different partition (C19_partitions_differ).
-   COMPARED on every run (tools/c19.py): model = compiled importers on generated files (exact on numbers
+   PROVED, extreme batch sizes (C19BigBatch.v, C19BigBatchProofs.v): maximumBatchSize / batchSize is a 64-bit number.
+   C19_batches_saturate / C19_libsvm_batches_saturate: for a batch size >= the number of records the batch sizes do not depend
+   on it (one batch); hence the entry points the check executes (csv_import_*_N, svm_import_*_N: batch size a binary number,
+   capped at records + 1 inside the model after parsing) ARE csv_import_* / svm_import_* at that batch size
+   (C19_import_64bit_batch_size_is_import), and every theorem above holds for every batch size in 1 .. 2^64-1 (one instance is
+   spelled out: C19_csv_data_import_total_any_batch_size_partial).  std::size_t arithmetic (modulo 2^64): optimalBatchSizes AS
+   CODED (n / m, then +1 if n - (n/m)*m > 0) and initializeBatches never wrap and compute opt_sizes / init_sizes for ALL 64-bit
+   arguments (C19_optimalBatchSizes_size_t_correct, C19_initializeBatches_size_t_correct,
+   C19_csv_import_batches_are_optimalBatchSizes_size_t); the round-up idiom (n + m - 1) / m is right iff n + m <= 2^64 and
+   divides by zero otherwise (C19_roundup_idiom_ok_iff_no_wrap, witness C19_roundup_idiom_refuted: 2 records, SIZE_MAX).
+   PROVED, target object: the model entry points csv_import_*_into / svm_import_*_into take the dataset the caller passes by
+   reference; no outcome depends on it (C19_import_ignores_target — true by construction of the model, every path of the code
+   assigns a new dataset; what ties this to the code is the reused-target comparison below); an importer whose early return on a
+   record-free input keeps the target is refuted (C19_import_without_reset_refuted).
+   PROVED, line ends (C19Lines.v, C19LinesProofs.v): converting the line ends of an exported unlabelled / regression file from LF
+   to CR LF does not change what the importer returns (separator character, comment character not CR).
+   SCOPE of the theorems, overload by overload.  Import totality / well-formedness: csvStringToData x10 = csv_import_data
+   (Data<RealVector|FloatVector>), csv_import_cls (LabeledData<Real|FloatVector, unsigned>), csv_import_reg (LabeledData<V, V>),
+   csv_import_ints / _uints / _reals (Data<int> / Data<unsigned> / Data<float|double>); importSparseData x16 = svm_import_cls / _reg
+   x compressed (float and double differ only in the token -> number conversion, stream and file only in how the bytes arrive:
+   both outside the model and compared); importCSV x3 and import_libsvm x4 are forwarders (compared).  Round trip: exportCSV of
+   Data<Vector>, of LabeledData<Vector, unsigned> and of LabeledData<Vector, Vector> with the default options (scientific, no field
+   width), exportSparseData (stream or file) of LabeledData<I, unsigned> with oneMinusOne = true, sortLabels = false and of
+   LabeledData<I, RealVector>.  NOT in the round-trip theorems:
+   - exportCSV with scientific = false or fieldwidth > 0 (padding blanks), exportSparseData with oneMinusOne = false, sortLabels =
+     true or append = true: neither modelled nor compared;
+   - scalar datasets: there is NO exporter for Data<int|unsigned|float|double> (detail::exportCSV needs vector elements and does not
+     compile for them), so the scalar importers have no export counterpart.  What exists: integer-valued VECTORS (Data<IntVector|
+     UIntVector>) written by exportCSV; read back by the scalar importers Data<int> / Data<unsigned>: PROVED
+     (C19ScalarRoundTripProofs.v: components in reading order, white-space separator or one component per element) and compared (XINT
+     stream); read back by the vector importer (integer tokens are not sci_tok), and Data<float|double>: compared and monitored only;
+   - export_libsvm (Libsvm.h) passes six arguments to exportSparseData, which takes five: it does not compile when instantiated;
+   - LabeledData<_, FloatVector> has no LibSVM exporter (exportSparseData takes RealVector labels): double precision only;
+   - labels: all classification importers (CSV x2, LibSVM x8) return  label - smallest label  (or -1/+1 -> 0/1), so labels come
+     back unchanged IFF class 0 occurs (proved: ..._labels_iff_class0_partial; the other case is the known deviation);
+   - CR LF line ends of classification files and with white-space separators; token <-> double conversion; compared only.
+   COMPARED on every run (tools/c19.py): EVERY import goes into a fresh dataset object and into one that already holds an earlier
+   import through the same overload (all 10 + 16 + 4 overloads, string and file variants): contents, batch structure, shape and
+   exception behaviour must agree (monitor key ...:reused-target); every importer stream uses the batch sizes {small, 1, 2, n-1, n,
+   n+1, 2^31, 2^32+1, 2^63, SIZE_MAX-1, SIZE_MAX, ..}; opt_sizes64 / init_sizes64 = detail::optimalBatchSizes / Data(n, element,
+   batchSize) called directly with 64-bit arguments (OBS / OBI); round trips with 36 separators (incl. | * ( ) [ ] \ ^ $ { } . + ?),
+   both label positions, LF and CR LF (crlf) line ends.  Further, as before:
+   model = compiled importers on generated files (exact on numbers
    with <= 15 digits), exporters = printers incl. exportSparseData (text compared byte for byte, re-imported dataset
    compared line-exact).  MONITORED only: memory safety / termination / exception type
    of the compiled Spirit parsers on arbitrary bytes (ASan+UBSan, SIGALRM); token <-> double conversion (a double ->
@@ -38,7 +80,7 @@
    or writes out of bounds" is a statement about compiled code and is not a Coq theorem here: the theorems are
    named _partial. *)
 From Coq Require Import List Arith ZArith NArith Bool.
-From SharkV Require Import ListAux C03Model C03Proofs C19Model C19Proofs C19RoundTrip C19RoundTrip2 C19SvmRoundTrip C19Batches C19BigBatch C19BigBatchProofs.
+From SharkV Require Import ListAux C03Model C03Proofs C19Model C19Proofs C19RoundTrip C19RoundTrip2 C19SvmRoundTrip C19Batches C19BigBatch C19BigBatchProofs C19Lines C19LinesProofs C19ScalarRoundTripProofs.
 Import ListNotations.
 
 Theorem C19_csv_data_import_total_partial :
@@ -411,3 +453,60 @@ Theorem C19_import_without_reset_refuted :
   csv_import_ints_into target 35%N 2%N [] = Ok (mkDs [] 0).
 Proof. exact noreset_refuted. Qed.
 Print Assumptions C19_import_without_reset_refuted.
+
+(* ---- CR LF line ends, separators that are special characters elsewhere ---- *)
+(* an exported file whose line ends were converted LF -> CR LF (crlf) is imported to the same result, for every batch size:
+   unlabelled and regression files, separator character (chars_ok), comment character not CR; hence the round-trip theorems
+   above hold for the converted file too.  (Classification files and white-space separators: compared on every run only.) *)
+Theorem C19_crlf_export_import_data_partial :
+  forall sep cm, chars_ok sep cm -> (cm =? 13)%N = false ->
+  forall rows m, rows <> [] -> Forall (fun r => r <> [] /\ Forall sci_tok r) rows ->
+  csv_import_data sep cm m (crlf (export_data sep rows)) = csv_import_data sep cm m (export_data sep rows).
+Proof. exact crlf_data_import. Qed.
+Print Assumptions C19_crlf_export_import_data_partial.
+
+Theorem C19_crlf_export_import_regression_partial :
+  forall sep cm, chars_ok sep cm -> (cm =? 13)%N = false ->
+  forall first nout rows m, rows <> [] ->
+  Forall (fun r => fst r ++ snd r <> [] /\ Forall sci_tok (fst r) /\ Forall sci_tok (snd r)) rows ->
+  csv_import_reg first nout sep cm m (crlf (export_reg first sep rows)) = csv_import_reg first nout sep cm m (export_reg first sep rows).
+Proof. exact crlf_reg_import. Qed.
+Print Assumptions C19_crlf_export_import_regression_partial.
+
+(* the separator hypotheses of the round-trip theorems are met by the characters that are special in regular expressions
+   and format strings:  | * ( ) [ \ ^ $ { / ! and, for unlabelled/regression files, even . + ? (with comment '#') *)
+Example C19_special_separators_ok :
+  cls_sep_ok 124%N 35%N /\ cls_sep_ok 42%N 35%N /\ cls_sep_ok 40%N 35%N /\ cls_sep_ok 41%N 35%N /\ cls_sep_ok 91%N 35%N /\
+  cls_sep_ok 92%N 35%N /\ cls_sep_ok 94%N 35%N /\ cls_sep_ok 36%N 35%N /\ cls_sep_ok 123%N 35%N /\ cls_sep_ok 47%N 35%N /\
+  cls_sep_ok 33%N 35%N /\ cls_sep_ok 43%N 35%N /\ cls_sep_ok 63%N 35%N /\
+  chars_ok 46%N 35%N /\ chars_ok 43%N 35%N /\ chars_ok 63%N 35%N.
+Proof. repeat split; left; repeat split. Qed.
+
+(* ---- scalar importers: integer-valued vectors written by exportCSV (there is no exporter for scalar datasets) ---- *)
+(* export_data sep (map (map int_tok) rows) is the text exportCSV writes for Data<IntVector> (int_tok z prints as operator<< prints
+   an int).  The scalar importer Data<int> / Data<unsigned> returns the components in reading order when the separator is white
+   space or every element has one component; every batch size >= 1; comment character not a digit (nor '-'). *)
+Theorem C19_export_import_roundtrip_int_scalars_partial :
+  forall cm sep rows m, is_digit cm = false -> (cm =? 45)%N = false -> 1 <= m ->
+  (is_space sep = true \/ Forall (fun r => length r = 1) rows) ->
+  Forall (fun r => r <> [] /\ Forall (fun z => in_int32 z = true) r) rows ->
+  exists ds, csv_import_ints cm m (export_data sep (map (map int_tok) rows)) = Ok ds /\
+             map snd (ds_elems ds) = concat rows /\ opt_batched m (ds_batches ds).
+Proof. exact int_scalar_roundtrip. Qed.
+Print Assumptions C19_export_import_roundtrip_int_scalars_partial.
+
+Theorem C19_export_import_roundtrip_uint_scalars_partial :
+  forall cm sep (rows : list (list N)) m, is_digit cm = false -> 1 <= m ->
+  (is_space sep = true \/ Forall (fun r => length r = 1) rows) ->
+  Forall (fun r => r <> [] /\ Forall (fun n => (n <= 4294967295)%N) r) rows ->
+  exists ds, csv_import_uints cm m (export_data sep (map (map (fun n => int_tok (Z.of_N n))) rows)) = Ok ds /\
+             map snd (ds_elems ds) = map Z.of_N (concat rows) /\ opt_batched m (ds_batches ds).
+Proof. exact uint_scalar_roundtrip. Qed.
+Print Assumptions C19_export_import_roundtrip_uint_scalars_partial.
+
+Example C19_scalar_roundtrip_examples :
+  csv_import_ints 35%N 2 (export_data 32%N (map (map int_tok) [[5; -3]; [7; 8]]%Z)) =
+    Ok (mkDs [[(tt, 5%Z); (tt, (-3)%Z)]; [(tt, 7%Z); (tt, 8%Z)]] 0) /\
+  csv_import_uints 35%N 2 (export_data 44%N (map (map (fun n => int_tok (Z.of_N n))) [[5]; [6]]%N)) =
+    Ok (mkDs [[(tt, 5%Z); (tt, 6%Z)]] 0).
+Proof. exact scalar_roundtrip_examples. Qed.
